@@ -107,20 +107,23 @@ def delattr_CBlock(self: Obj(CBlock), name: Str):
 
 
 # ---- identifiers of MUTABLE objects are recomputed on every call (no cache), whatever the history ----------
-@contract('bitcoin.core:CMutableTransaction.GetHash', name='gethash_mutable_tx', prop=P)
+# (these contracts name the concrete classes, so the method is resolved through the live class and an override added
+# in a subclass is met; for that reason they are verified under C02 as well, whose own contracts target the base-class
+# functions)
+@contract('bitcoin.core:CMutableTransaction.GetHash', name='gethash_mutable_tx', prop=[P, 'C02'])
 def gethash_mutable_tx(self: Obj(CMutableTransaction)) -> Bytes:
     """the hash of a mutable transaction reflects its current fields (a left-over cache slot is never consulted)"""
     requires(valid_tx(self))
     ensures(result == wtxid_of(self))
 
 
-@contract('bitcoin.core:CMutableTransaction.__hash__', name='pyhash_mutable_tx', prop=P)
+@contract('bitcoin.core:CMutableTransaction.__hash__', name='pyhash_mutable_tx', prop=[P, 'C02'])
 def pyhash_mutable_tx(self: Obj(CMutableTransaction)):
     requires(valid_tx(self))
     ensures(result == hash(enc_tx(self, True)))
 
 
-@contract('bitcoin.core:CMutableTransaction.GetTxid', name='gettxid_mutable_tx', prop=P)
+@contract('bitcoin.core:CMutableTransaction.GetTxid', name='gettxid_mutable_tx', prop=[P, 'C02'])
 def gettxid_mutable_tx(self: Obj(CMutableTransaction)) -> Bytes:
     requires(valid_tx(self))
     unfold(valid_wits(()))
@@ -135,71 +138,91 @@ def gettxid_mutable_tx(self: Obj(CMutableTransaction)) -> Bytes:
     ensures(result == txid_of(self))
 
 
-@contract('bitcoin.core:CMutableOutPoint.GetHash', name='gethash_mutable_outpoint', prop=P)
+@contract('bitcoin.core:CMutableOutPoint.GetHash', name='gethash_mutable_outpoint', prop=[P, 'C02'])
 def gethash_mutable_outpoint(self: Obj(CMutableOutPoint)) -> Bytes:
     requires(valid_outpoint(self))
     ensures(result == hash256(enc_outpoint(self)))
 
 
-@contract('bitcoin.core:CMutableOutPoint.__hash__', name='pyhash_mutable_outpoint', prop=P)
+@contract('bitcoin.core:CMutableOutPoint.__hash__', name='pyhash_mutable_outpoint', prop=[P, 'C02'])
 def pyhash_mutable_outpoint(self: Obj(CMutableOutPoint)):
     requires(valid_outpoint(self))
     ensures(result == hash(enc_outpoint(self)))
 
 
-@contract('bitcoin.core:CMutableTxIn.GetHash', name='gethash_mutable_txin', prop=P)
+@contract('bitcoin.core:CMutableTxIn.GetHash', name='gethash_mutable_txin', prop=[P, 'C02'])
 def gethash_mutable_txin(self: Obj(CMutableTxIn)) -> Bytes:
     requires(valid_txin(self))
     ensures(result == hash256(enc_txin(self)))
 
 
-@contract('bitcoin.core:CMutableTxIn.__hash__', name='pyhash_mutable_txin', prop=P)
+@contract('bitcoin.core:CMutableTxIn.__hash__', name='pyhash_mutable_txin', prop=[P, 'C02'])
 def pyhash_mutable_txin(self: Obj(CMutableTxIn)):
     requires(valid_txin(self))
     ensures(result == hash(enc_txin(self)))
 
 
-@contract('bitcoin.core:CMutableTxOut.GetHash', name='gethash_mutable_txout', prop=P)
+@contract('bitcoin.core:CMutableTxOut.GetHash', name='gethash_mutable_txout', prop=[P, 'C02'])
 def gethash_mutable_txout(self: Obj(CMutableTxOut)) -> Bytes:
     requires(valid_txout(self))
     ensures(result == hash256(enc_txout(self)))
 
 
-@contract('bitcoin.core:CMutableTxOut.__hash__', name='pyhash_mutable_txout', prop=P)
+@contract('bitcoin.core:CMutableTxOut.__hash__', name='pyhash_mutable_txout', prop=[P, 'C02'])
 def pyhash_mutable_txout(self: Obj(CMutableTxOut)):
     requires(valid_txout(self))
     ensures(result == hash(enc_txout(self)))
 
 
 # ---- cached identifiers of IMMUTABLE objects equal the recomputed ones (first and later calls) -----------------
-@contract('bitcoin.core:CTransaction.GetHash', name='gethash_tx', prop=P)
+@contract('bitcoin.core:CTransaction.GetHash', name='gethash_tx', prop=[P, 'C02'])
 def gethash_tx(self: Obj(CTransaction)) -> Bytes:
     requires(valid_tx(self))
     ensures(result == wtxid_of(self))
 
 
-@contract('bitcoin.core:CTransaction.__hash__', name='pyhash_tx', prop=P)
+@contract('bitcoin.core:CTransaction.__hash__', name='pyhash_tx', prop=[P, 'C02'])
 def pyhash_tx(self: Obj(CTransaction)):
     requires(valid_tx(self))
     ensures(result == hash(enc_tx(self, True)))
 
 
-@contract('bitcoin.core:CBlockHeader.GetHash', name='gethash_header', prop=P)
+@contract('bitcoin.core:CBlockHeader.GetHash', name='gethash_header', prop=[P, 'C02'])
 def gethash_header(self: Obj(CBlockHeader)) -> Bytes:
     requires(valid_header(self))
     ensures(result == blockhash_of(self))
 
 
-@contract('bitcoin.core:CBlock.GetHash', name='gethash_block', prop=P)
+@contract('bitcoin.core:CBlock.GetHash', name='gethash_block', prop=[P, 'C02'])
 def gethash_block(self: Obj(CBlock)) -> Bytes:
     requires(valid_header(self))
     ensures(result == blockhash_of(self))
 
 
-@contract('bitcoin.core:COutPoint.GetHash', name='gethash_outpoint', prop=P)
+@contract('bitcoin.core:COutPoint.GetHash', name='gethash_outpoint', prop=[P, 'C02'])
 def gethash_outpoint(self: Obj(COutPoint)) -> Bytes:
     requires(valid_outpoint(self))
     ensures(result == hash256(enc_outpoint(self)))
+
+
+@contract('bitcoin.core:COutPoint.__hash__', name='pyhash_outpoint', prop=[P, 'C02'])
+def pyhash_outpoint(self: Obj(COutPoint)):
+    """hash() of the immutable element classes is that of the serialisation, exactly as for their mutable twins (equal
+    objects of the two classes must hash alike: sets and dict keys mix them)"""
+    requires(valid_outpoint(self))
+    ensures(result == hash(enc_outpoint(self)))
+
+
+@contract('bitcoin.core:CTxIn.__hash__', name='pyhash_txin', prop=[P, 'C02'])
+def pyhash_txin(self: Obj(CTxIn)):
+    requires(valid_txin(self))
+    ensures(result == hash(enc_txin(self)))
+
+
+@contract('bitcoin.core:CTxOut.__hash__', name='pyhash_txout', prop=[P, 'C02'])
+def pyhash_txout(self: Obj(CTxOut)):
+    requires(valid_txout(self))
+    ensures(result == hash(enc_txout(self)))
 
 
 # ---- copy constructors: immutable snapshots and mutable copies never share mutable state with the source ------
